@@ -330,7 +330,7 @@ class Evolver:
             # productions that once exposed a defect (kept as a standing floor)
             "message-no-typename", "rust-keyword-name", "base-regexp", "empty-struct-property", "request-no-typename",
             "matrix", "same-name-different-nullness", "shared-registration-method", "diamond",
-            "message-regopts-no-params", "explicit-closed-enum", "and-registration-options", "deep-mixin", "confusing-message-names", "exotic-enum-values", "message-map-keys", "marked-everything", "alias-shapes", "declares-response-error"]
+            "message-regopts-no-params", "explicit-closed-enum", "and-registration-options", "deep-mixin", "confusing-message-names", "exotic-enum-values", "message-map-keys", "marked-everything", "alias-shapes", "declares-response-error", "method-mentions-request"]
     RUST_AND_PYTHON_KEYWORDS = ["in", "for", "as", "if", "else", "while", "continue", "break", "return", "async", "await", "try", "yield"]
 
     MATRIX_PRODUCTIONS = ["base", "ref-struct", "ref-enum", "ref-alias", "array", "map", "tuple", "ornull-first", "ornull-last", "literal",
@@ -480,6 +480,11 @@ class Evolver:
         if focus == "message-regopts-no-params":
             self.e_new_message(is_request=True, registration="own", params=False)
             return self.e_new_message(is_request=False, registration="own", params=False)
+        if focus == "method-mentions-request":
+            # messages without typeName whose method carries the words the plugins append as suffixes
+            for word, is_req in (("requestAlpha", True), ("alphaRequestBeta", True), ("notificationGamma", False), ("requestDelta", False), ("notificationOmega", True)):
+                self.e_new_message(with_type_name=False, is_request=is_req, method_word=word, params=True)
+            return
         if focus == "declares-response-error":
             # the metamodel may come to declare the base protocol's ResponseError itself (same shape as the class every
             # plugin already ships by hand)
